@@ -227,7 +227,21 @@ func cmdCheck(args []string) {
 			counted = append(counted, o)
 		}
 	}
-	// in quick mode skip obligations the baseline lists as undecided and that are not contract-carrying
+	// quick tier: panic-sweep obligations that the committed baseline lists as undecided are neither claimed nor
+	// reported, so they are not re-run (they are in the thorough tier); known findings are always re-run
+	if *tier == "quick" && !*writeBaseline {
+		kf := map[string]bool{}
+		for _, k := range known {
+			kf[k.Obligation] = true
+		}
+		for _, o := range counted {
+			bn := baseName(o.Name)
+			if be, ok := baseline[bn]; ok && be.Status == "undecided" && o.Class == "panic" && !kf[bn] && o.Status == "" {
+				o.Status = "unknown"
+				o.Detail = "not re-run in the quick tier (undecided in the committed baseline)"
+			}
+		}
+	}
 	DischargeAll(counted, dir, timeout, 12)
 	solveS := time.Since(t0).Seconds() - loadS - genS
 	// determinism typestate
@@ -257,6 +271,11 @@ func cmdCheck(args []string) {
 		for _, n := range order {
 			g := groups[n]
 			if g.Canary {
+				if g.Status == "proved" {
+					// a path the encoding finds unreachable on the unchanged tree (dead code): recorded, so that only a
+					// change of this fact is reported
+					ents = append(ents, BaselineEntry{Name: n, Status: "dead-path", Why: "return / loop not reachable under the contract on the unchanged tree"})
+				}
 				continue
 			}
 			e := BaselineEntry{Name: n, Status: "proved"}
@@ -304,7 +323,10 @@ func cmdCheck(args []string) {
 		g := groups[n]
 		if g.Canary {
 			if g.Status == "proved" {
-				report(g, "vacuity: the contract's precondition is unsatisfiable or no return is reachable, so its obligations hold vacuously")
+				if be, ok := baseline[n]; ok && be.Status == "dead-path" {
+					continue
+				}
+				report(g, "vacuity: the contract's precondition is unsatisfiable or a return / loop became unreachable, so obligations hold vacuously")
 			}
 			continue
 		}
